@@ -1,9 +1,9 @@
-From Coq Require Import List Bool.
+From Coq Require Import List Bool ZArith Arith.
 From KV Require Import Common.Verdict Model.C42.
 Import ListNotations.
 
 Ltac crush_world w p :=
-  destruct w as [rg ip ud lk el cr ch bt rf uf jf]; unfold check_status, check_rewards, monitor_first;
+  destruct w as [rg ip ud lk el cr ch bt rf uf jf sc pc pz]; unfold check_status, check_rewards, monitor_first;
   cbn [registered in_pool up_to_date locked eligible can_restore chaosnet beta];
   destruct (should_join _ p) eqn:Hsj;
   destruct rg, ip, ud, lk, el, cr; cbn;
@@ -33,7 +33,7 @@ Proof. crush_world w p. Qed.
 
 Lemma requests_nodup w p : NoDup (fst (check_status w p)).
 Proof.
-  destruct w as [rg ip ud lk el cr ch bt rf uf jf]; unfold check_status, check_rewards;
+  destruct w as [rg ip ud lk el cr ch bt rf uf jf sc pc pz]; unfold check_status, check_rewards;
   cbn [registered in_pool up_to_date locked eligible can_restore chaosnet beta];
   destruct (should_join _ p); destruct ip, ud, lk, el, cr; cbn;
   repeat constructor; cbn; intuition discriminate.
@@ -71,6 +71,7 @@ Definition permitted_prop (w : world) (p : policy) (t : tx) : Prop :=
   | Join => in_pool w = AFalse /\ up_to_date w = AFalse /\ locked w = AFalse /\ should_join w p = true
   | Update => in_pool w = ATrue /\ up_to_date w = AFalse /\ locked w = AFalse
   | Restore => can_restore w = ATrue
+  | Panic => True
   end.
 
 Lemma permitted_sound w p t : permitted w p t = true <-> permitted_prop w p t.
@@ -91,25 +92,194 @@ Proof.
   - apply (join_iff w p); exact H.
   - apply (update_iff w p); exact H.
   - apply (restore_iff w p) in H; tauto.
+  - exact I.
 Qed.
 
 Lemma model_passes_spec w p : spec_ok w p (fst (monitor_first w p)) = true.
 Proof. apply spec_ok_sound. intros t. apply model_permitted. Qed.
 
-(* histories: the check is stateless, so the statement for sequences is pointwise *)
-Lemma history_permitted p (ws : list world) :
-  Forall (fun w => forall t, In t (fst (monitor_first w p)) -> permitted_prop w p t) ws.
-Proof. apply Forall_forall. intros w _ t. apply model_permitted. Qed.
+(* ------------------------------------------------------------------------------------------
+   Histories on ONE long-lived policy object graph: no tick leaves anything behind in it. *)
+
+Lemma policy_ind2 (P : policy -> Prop)
+  (Hu : P PUncond) (Hb : P PBeta) (Hs : forall i, P (PScript i)) (Hp : P PPre)
+  (Hc : forall ps, Forall P ps -> P (PConj ps)) : forall p, P p.
+Proof.
+  fix IH 1. intros [| | i | | ps]; [exact Hu | exact Hb | apply Hs | exact Hp | ].
+  apply Hc. induction ps as [|q t IHt]; constructor; [apply IH | exact IHt].
+Qed.
+
+Definition conj_all (w : world) : list policy -> bool :=
+  fix all (l : list policy) : bool :=
+    match l with [] => true | q :: t => if should_join w q then all t else false end.
+Definition conj_all_st (w : world) : list policy -> bool * list policy :=
+  fix all (l : list policy) : bool * list policy :=
+    match l with
+    | [] => (true, [])
+    | q :: t =>
+        let '(bq, q') := should_join_st w q in
+        if bq then let '(bt, t') := all t in (bt, q' :: t') else (false, q' :: t)
+    end.
+
+Lemma should_join_conj w ps : should_join w (PConj ps) = conj_all w ps.
+Proof. reflexivity. Qed.
+Lemma should_join_st_conj w ps :
+  should_join_st w (PConj ps) = let '(b, ps') := conj_all_st w ps in (b, PConj ps').
+Proof. reflexivity. Qed.
+
+(* a ShouldJoin call answers the per-tick pure decision and leaves the object graph as it was *)
+Lemma should_join_st_pure w p : should_join_st w p = (should_join w p, p).
+Proof.
+  induction p as [| | i | | ps IH] using policy_ind2; try reflexivity.
+  rewrite should_join_st_conj, should_join_conj.
+  assert (E : conj_all_st w ps = (conj_all w ps, ps)).
+  { induction IH as [|q t Hq _ IHt]; [reflexivity|].
+    cbn [conj_all_st conj_all]. rewrite Hq.
+    destruct (should_join w q); [|reflexivity].
+    fold (conj_all_st w) (conj_all w). rewrite IHt. reflexivity. }
+  rewrite E. reflexivity.
+Qed.
+
+Lemma tick_st_pure p w : tick_st p w = (tick p w, p).
+Proof. unfold tick_st. rewrite should_join_st_pure. destruct (asks_policy w); reflexivity. Qed.
+
+(* the history output is the per-tick decision mapped over the history *)
+Lemma history_no_memory p ws : history_st p ws = map (tick p) ws.
+Proof.
+  induction ws as [|w t IH]; [reflexivity|].
+  cbn [history_st map]. rewrite tick_st_pure, IH. reflexivity.
+Qed.
+
+Lemma history_tick_local p ws i :
+  nth_error (history_st p ws) i = option_map (tick p) (nth_error ws i).
+Proof. rewrite history_no_memory. apply nth_error_map. Qed.
+
+(* whatever happened before and whatever comes after, a tick's output is that of its own world *)
+Lemma history_past_future_irrelevant p before after w :
+  nth_error (history_st p (before ++ w :: after)) (length before) = Some (tick p w).
+Proof.
+  rewrite history_tick_local, nth_error_app2, Nat.sub_diag by apply Nat.le_refl. reflexivity.
+Qed.
+
+Lemma monitor_history reg p ws :
+  monitor reg p ws = match reg with ATrue => (map (tick p) ws, false) | _ => ([], true) end.
+Proof. unfold monitor. rewrite history_no_memory. reflexivity. Qed.
+
+Lemma tick_permitted p w t : In t (fst (fst (tick p w))) -> permitted_prop w p t.
+Proof.
+  cbn [tick fst]. destruct t; intros H; cbn [permitted_prop].
+  - apply (join_iff w p); exact H.
+  - apply (update_iff w p); exact H.
+  - apply (restore_iff w p) in H; tauto.
+  - exact I.
+Qed.
+
+(* the property for histories: at every tick, every request is permitted by THAT tick's world *)
+Lemma history_permitted p ws i w o :
+  nth_error ws i = Some w -> nth_error (history_st p ws) i = Some o ->
+  forall t, In t (fst (fst o)) -> permitted_prop w p t.
+Proof.
+  intros Hw Ho. rewrite history_tick_local, Hw in Ho. injection Ho as <-. apply tick_permitted.
+Qed.
+
+Lemma conj_all_forallb w ps : conj_all w ps = forallb (should_join w) ps.
+Proof. rewrite <- should_join_conj. apply conj_policy. Qed.
+
+(* ... in particular a conjunction joins at a tick only if EVERY part says yes at that tick *)
+Lemma history_join_needs_every_part ps ws i w o :
+  nth_error ws i = Some w -> nth_error (history_st (PConj ps) ws) i = Some o ->
+  In Join (fst (fst o)) ->
+  in_pool w = AFalse /\ up_to_date w = AFalse /\ locked w = AFalse /\
+  forall q, In q ps -> should_join w q = true.
+Proof.
+  intros Hw Ho Hj. pose proof (history_permitted _ _ _ _ _ Hw Ho Join Hj) as H.
+  cbn [permitted_prop] in H. destruct H as (H1 & H2 & H3 & H4).
+  repeat split; auto. rewrite conj_policy, forallb_forall in H4. exact H4.
+Qed.
+
+(* the policy object is consulted only when the check gets to the joining decision *)
+Lemma policy_consulted_only_when_needed w p :
+  asks_policy w = false -> tick p w = tick PUncond w.
+Proof.
+  unfold tick, check_status, check_queries, asks_policy.
+  destruct (in_pool w), (up_to_date w), (locked w); intros H; try discriminate; reflexivity.
+Qed.
+
+(* executable history spec *)
+Lemma hist_spec_sound p steps :
+  hist_spec p steps = true <->
+  (forall s, In s steps -> forall t, In t (s_txs s) -> permitted_prop (s_world s) p t).
+Proof.
+  unfold hist_spec, step_spec. rewrite forallb_forall.
+  split; intros H s Hs; [apply spec_ok_sound | apply spec_ok_sound]; auto.
+Qed.
+
+(* the steps the model itself would produce *)
+Definition model_step (p : policy) (w : world) : step :=
+  {| s_world := w; s_txs := fst (fst (tick p w)); s_queries := snd (tick p w);
+     s_err := Some (snd (fst (tick p w))); s_allow := should_join w p |}.
+
+Lemma model_passes_hist_spec p ws : hist_spec p (map (model_step p) ws) = true.
+Proof.
+  apply hist_spec_sound. intros s Hs t Ht. apply in_map_iff in Hs. destruct Hs as (w & <- & _).
+  cbn [model_step s_world s_txs] in *. apply tick_permitted. exact Ht.
+Qed.
+
+Lemma tx_eqb_refl t : tx_eqb t t = true. Proof. destruct t; reflexivity. Qed.
+Lemma query_eqb_refl q : query_eqb q q = true.
+Proof. destruct q; cbn; auto using Nat.eqb_refl. Qed.
+Lemma list_eqb_refl {A} (eqb : A -> A -> bool) (H : forall x, eqb x x = true) l : list_eqb eqb l l = true.
+Proof. induction l as [|x l IH]; cbn; [reflexivity|]. rewrite H, IH. reflexivity. Qed.
+
+Lemma steps_agree_model p ws : steps_agree (map (tick p) ws) (map (model_step p) ws) = true.
+Proof.
+  induction ws as [|w t IH]; [reflexivity|]. cbn [map steps_agree]. rewrite IH, andb_true_r.
+  unfold step_agree. destruct (tick p w) as [[tx e] q] eqn:E. unfold model_step. rewrite E.
+  cbn [s_txs s_queries s_err fst snd]. unfold txs_eqb, queries_eqb.
+  rewrite (list_eqb_refl _ tx_eqb_refl), (list_eqb_refl _ query_eqb_refl), Bool.eqb_reflx. reflexivity.
+Qed.
+
+(* the judge accepts every history of the model: neither spec nor agreement can fail on it *)
+Lemma judge_accepts_model p ws : ws <> [] ->
+  judge {| c_registered := ATrue; c_policy := p; c_steps := map (model_step p) ws;
+           c_monitor_err := false |} = Agree.
+Proof.
+  intros Hne. unfold judge. cbn [c_steps c_policy].
+  destruct (map (model_step p) ws) as [|s0 ss] eqn:E.
+  { destruct ws; [contradiction | discriminate]. }
+  rewrite <- E.
+  replace (forallb (allow_consistent p) (map (model_step p) ws)) with true.
+  2:{ symmetry. apply forallb_forall. intros s Hs. apply in_map_iff in Hs. destruct Hs as (w & <- & _).
+      unfold allow_consistent, model_step. cbn. apply Bool.eqb_reflx. }
+  rewrite model_passes_hist_spec. unfold hist_agree. cbn [c_registered c_policy c_steps c_monitor_err].
+  assert (Hw : map s_world (map (model_step p) ws) = ws).
+  { rewrite map_map. rewrite (map_ext _ (fun w => w)) by reflexivity. apply map_id. }
+  rewrite Hw, monitor_history, steps_agree_model. reflexivity.
+Qed.
 
 (* non-vacuity: some world makes the client join, some makes it update and restore *)
 Example join_happens :
   fst (monitor_first {| registered := ATrue; in_pool := AFalse; up_to_date := AFalse; locked := AFalse;
                         eligible := ATrue; can_restore := AFalse; chaosnet := AFalse; beta := AFalse;
-                        restore_fails := false; update_fails := false; join_fails := false |} PBeta) = [Join].
+                        restore_fails := false; update_fails := false; join_fails := false; scripted := []; pre_count := 0; pre_size := 0 |} PBeta) = [Join].
 Proof. reflexivity. Qed.
 Example update_and_restore_happen :
   fst (monitor_first {| registered := ATrue; in_pool := ATrue; up_to_date := AFalse; locked := AFalse;
                         eligible := AFalse; can_restore := ATrue; chaosnet := AFalse; beta := AFalse;
-                        restore_fails := true; update_fails := false; join_fails := false |} PUncond)
+                        restore_fails := true; update_fails := false; join_fails := false; scripted := []; pre_count := 0; pre_size := 0 |} PUncond)
   = [Restore; Update].
+Proof. reflexivity. Qed.
+
+(* the shape of the independently written breaking change C42a: first A yes / B no, then A no /
+   B yes on the same conjunction object — the model never joins *)
+Definition joinable (sc : list bool) : world :=
+  {| registered := ATrue; in_pool := AFalse; up_to_date := AFalse; locked := AFalse;
+     eligible := ATrue; can_restore := AFalse; chaosnet := AFalse; beta := AFalse;
+     restore_fails := false; update_fails := false; join_fails := false;
+     scripted := sc; pre_count := 0; pre_size := 0 |}.
+Example stale_yes_is_not_kept :
+  map (fun o => fst (fst o))
+      (history_st (PConj [PScript 0; PScript 1])
+         [joinable [true; false]; joinable [false; true]; joinable [true; true]])
+  = [[]; []; [Join]].
 Proof. reflexivity. Qed.
